@@ -32,6 +32,13 @@ CLAIMED = {
              "enumerated op shapes (add, 8 remove patterns, with/without graph) up to 3 ops (thorough 4), rollback/commit endings, and "
              "two wrappers with every interleaving of <=2 ops each on pairwise different triples.",
         ref="DESIGN.md section 3 C18"),
+    "C19": dict(
+        technique="symbolic execution of Collection/Graph.items/value/set (CrossHair + z3) differentially against a Python list",
+        text="Bounded symbolic model checking of rdflib.collection.Collection: start length 0-2 (thorough 3), every sequence of <=2 "
+             "operations (seeded 3-operation sample) over append, +=, item assignment, deletion, clear, reads; members (identity and "
+             "truthiness) and indices symbolic; after each step exception class vs. list, well-formed rdf:first/rdf:rest chain with no "
+             "orphans, len and iteration; reads on cyclic/truncated chains must terminate.",
+        ref="DESIGN.md section 3 C19"),
 }
 
 NA = {
@@ -50,7 +57,6 @@ NA = {
     "C15": "check not built yet in this commit (planned: engine S)",
     "C16": "result codecs are json/expat/csv (C) and a pyparsing grammar over term contents that cannot be symbolic; remaining symbolic inputs are bound/unbound booleans",
     "C17": "check not built yet in this commit (planned: engines S + K)",
-    "C19": "check not built yet in this commit (planned: engine S)",
     "C20": "property is about HTTP round trips and the meaning of generated SPARQL text, which needs pyparsing on that text; all symbolic data is realised at n3()/socket/JSON boundaries",
 }
 
